@@ -3,7 +3,7 @@
    kind 0 ok / 1 makes argument analysis fail / 2 fails in adapt_function; body 0 returns / 1 delegates to call_next;
    defs0 = labels registered before first use; setup = operations run sequentially to completion first.
    Operations: (0 k) call with key k, (1 l) register l, (2 l) unregister l.
-   Outcomes: -1 = did not finish; ((trace...) r) with r 0 returned / 1 configuration error / 2 no method / 3 ambiguous. *)
+   Outcomes: -1 = did not finish; ((trace...) r) with r 0 returned / 1 configuration error / 2 no method / 3 ambiguous / 4 internal KeyError. *)
 (* OPCODE 60 run_inject *)
 (* OPCODE 61 run_sched *)
 (* OPCODE 62 run_reach *)
@@ -32,10 +32,11 @@ Definition op_of (s : sx) : op :=
   end.
 
 Definition of_result (r : result) : sx :=
-  A (match r with RRet => 0 | RErr EConfig => 1 | RErr ENoMethod => 2 | RErr EAmbig => 3 end)%Z.
+  A (match r with RRet => 0 | RErr EConfig => 1 | RErr ENoMethod => 2 | RErr EAmbig => 3 | RErr EInternal => 4 end)%Z.
 Definition of_outcome (o : option (list label * result)) : sx :=
   match o with None => A (-1)%Z | Some (tr, r) => L [of_nats tr; of_result r] end.
 
+Definition of_cl (cl : option (label * nat)) : sx := match cl with None => of_nat 0 | Some (h, _) => of_nat (S h) end.
 Definition of_pc (p : pc) : sx :=
   match p with
   | PStart _ => L [of_nat 0; of_nat 0]
@@ -46,16 +47,16 @@ Definition of_pc (p : pc) : sx :=
   | PComp CSwap _ => L [of_nat 13; of_nat 0]
   | PComp CSnap _ => L [of_nat 14; of_nat 0]
   | PComp (CAdapt l _) _ => L [of_nat 15; of_nat l]
-  | PComp (CReg l _) _ => L [of_nat 16; of_nat l]
+  | PComp (CReg l _ _) _ => L [of_nat 16; of_nat l]
   | PComp CFlag _ => L [of_nat 17; of_nat 0]
   | PDispatch _ => L [of_nat 20; of_nat 0]
-  | PMro _ _ cl => L [of_nat 21; of_nat cl]
-  | PWrite _ _ cl st ws => L [of_nat 22; of_nat (length ws); of_bool st; of_nat cl]
-  | PAfter _ _ cl => L [of_nat 23; of_nat cl]
-  | PRun h _ => L [of_nat 24; of_nat h]
-  | PNext h _ => L [of_nat 25; of_nat h]
-  | PN1 _ h _ => L [of_nat 26; of_nat h]
-  | PN2 _ h _ => L [of_nat 27; of_nat h]
+  | PMro _ _ cl => L [of_nat 21; of_cl cl]
+  | PWrite _ _ cl st ws => L [of_nat 22; of_nat (length ws); of_bool st; of_cl cl]
+  | PAfter _ _ cl => L [of_nat 23; of_cl cl]
+  | PRun h _ _ => L [of_nat 24; of_nat h]
+  | PNext h _ _ => L [of_nat 25; of_nat h]
+  | PN1 _ h _ _ => L [of_nat 26; of_nat h]
+  | PN2 _ h _ _ => L [of_nat 27; of_nat h]
   | PDone _ => L [of_nat 30; of_nat 0]
   end.
 
@@ -113,7 +114,7 @@ Definition step_kind (mt : label -> minfo) (l : local) : nat :=
   | PComp CNewMap _ => 11
   | PComp CSwap _ => 13
   | PComp (CAdapt d _) _ => if negb (is_bad_adapt mt d) && m_recoded (mt d) then 15 else 0
-  | PComp (CReg _ _) _ => 16
+  | PComp (CReg _ _ _) _ => 16
   | PComp CFlag _ => 17
   | PMro _ _ _ => 21
   | PWrite _ _ _ _ (_ :: _) => 22
